@@ -2320,6 +2320,10 @@ func c15DestFaults(c *ctx, tmp string, seq *int) {
 					desc+" :: "+swallowed)
 			} else if faulty && class == "ok" {
 				c.violate("writer-swallows-error:"+k.name, "the destination of an entry cannot be written, yet every Write of the archive writer succeeded", desc)
+			} else if strings.HasPrefix(k.name, "create-") && class != "create" {
+				c.violate("writer-wrong-error:"+k.name, "an entry that cannot be created must end the stream with the creation error", desc+" :: "+res)
+			} else if len(fullSpecs) > 0 && class != "write" {
+				c.violate("writer-wrong-error:"+k.name, "a failing write of an entry's file must end the stream with that write error", desc+" :: "+res)
 			} else if !faulty && class != "ok" {
 				c.violate("writer-error-without-fault:"+k.name, "the archive writer failed on a sound destination", desc+" :: "+res)
 			}
